@@ -276,12 +276,52 @@ fn sync_scenarios(out: &mut NdjsonWriter, seed: u64, n: u64, ironwood: bool) {
     }
 }
 
+/// Shard-boundary histories: the wallet is born 3 (Sapling) / 2 (Orchard) commitments below the end of a
+/// shard; blocks complete the shard, subtree roots arrive before / after the blocks are scanned, notes sit on
+/// both sides of the boundary, the sync client plays, rewinds cross the boundary block.
+fn shard_scenarios(out: &mut NdjsonWriter, seed: u64, n: u64) {
+    for i in 0..n {
+        let ksap = 1 + (i % 2);
+        let mut r = Run::sharded(out, seed.wrapping_mul(104_729).wrapping_add(i), false, 65536 * ksap - 3, 65536 - 2, json!(format!("shard {i}")));
+        let mut rng = ChaChaRng::seed_from_u64(seed ^ (i << 8));
+        let roots_first = i % 3 == 0;
+        for b in 0..rng.gen_range(8..30u32) {
+            let mut taken = vec![];
+            let ntx = if b < 6 { 1 } else { rng.gen_range(0..2) };
+            let txs: Vec<TxReq> = (0..ntx).map(|_| r.random_tx(&mut taken)).collect();
+            r.block(&txs, &[], false);
+        }
+        if roots_first {
+            r.put_roots();
+        }
+        match i % 4 {
+            0 => r.sync_loop(2),
+            1 => {
+                r.tip_top();
+                let top = r.chain.top();
+                r.scan(top - 3, 4);
+                r.put_roots();
+                r.sync_loop(1);
+            }
+            _ => r.random_history(40),
+        }
+        r.put_roots();
+        let top = r.chain.top();
+        r.trunc(top.saturating_sub(rng.gen_range(1..12)).max(r.chain.base + 1), true);
+        r.empties(2);
+        r.catch_up_and_fresh();
+    }
+}
+
 fn main() {
     quiet_panics();
     let args: Vec<String> = std::env::args().collect();
     let mut out = NdjsonWriter::create(&args[1]);
     if args[2] == "scenarios" {
         scenarios(&mut out);
+    } else if args[2] == "shard-scenarios" {
+        let n: u64 = args.get(3).map(|s| s.parse().unwrap()).unwrap_or(6);
+        shard_scenarios(&mut out, seed_from_env(), n);
     } else if args[2] == "sync-scenarios" {
         let n: u64 = args.get(3).map(|s| s.parse().unwrap()).unwrap_or(8);
         sync_scenarios(&mut out, seed_from_env(), n, false);
